@@ -17,4 +17,5 @@ func register(id, level string, fn func(*core.Run)) { Registry[id] = Check{level
 
 func init() {
 	register("C08", "exploration", C08)
+	register("C07", "exploration", C07)
 }
